@@ -62,4 +62,51 @@ theorem doKeepAlive_noretry_gives_up (p : Pub) (s : Store) (a : Attempt) (rest :
     (doKeepAlive false p s (a :: rest)).2.2 = false := by
   simp [doKeepAlive, ha]
 
+
+/-! listeners -/
+
+theorem find_filter_ne (ls : Listeners) (i j : Nat) (h : j ≠ i) :
+    (ls.filter (fun p => p.1 ≠ i)).find? (fun p => p.1 = j) = ls.find? (fun p => p.1 = j) := by
+  induction ls with
+  | nil => rfl
+  | cons p t ih =>
+    by_cases hi : p.1 = i
+    · have hj : ¬ p.1 = j := fun e => h (e ▸ hi)
+      have d1 : decide (p.1 ≠ i) = false := by simp [hi]
+      have d2 : decide (p.1 = j) = false := by simp [hj]
+      rw [List.filter_cons, d1, List.find?_cons, d2]
+      exact ih
+    · have d1 : decide (p.1 ≠ i) = true := by simp [hi]
+      rw [List.filter_cons, d1]
+      by_cases hj : p.1 = j
+      · have d2 : decide (p.1 = j) = true := by simp [hj]
+        simp only [if_true, List.find?_cons, d2]
+      · have d2 : decide (p.1 = j) = false := by simp [hj]
+        simp only [if_true, List.find?_cons, d2]
+        exact ih
+
+theorem find_map_snd (ls : Listeners) (g : Container → Container) (j : Nat) :
+    (ls.map fun p => (p.1, g p.2)).find? (fun p => p.1 = j) = (ls.find? (fun p => p.1 = j)).map fun p => (p.1, g p.2) := by
+  induction ls with
+  | nil => rfl
+  | cons p t ih =>
+    by_cases hj : p.1 = j
+    · simp [List.find?_cons, hj]
+    · simp [List.find?_cons, hj, ih]
+
+theorem listeners_get_unmonitor_deliver (fx : Fix) (ls : Listeners) (i j : Nat) (h : j ≠ i) (evs : List LEv) :
+    ((ls.unmonitor i).deliver fx evs).get j = (ls.deliver fx evs).get j := by
+  unfold Listeners.unmonitor Listeners.deliver Listeners.get
+  rw [find_map_snd _ (fun c => evs.foldl (applyL fx) c), find_map_snd _ (fun c => evs.foldl (applyL fx) c), find_filter_ne ls i j h]
+
+theorem loadLoop_installs_first_success (fails : List (Option (List (Nat × Nat)))) (kvs : List (Nat × Nat))
+    (rest : List (Option (List (Nat × Nat)))) (hf : ∀ r ∈ fails, r = none) :
+    loadLoop (fails ++ some kvs :: rest) = some kvs := by
+  induction fails with
+  | nil => rfl
+  | cons a t ih =>
+    have : a = none := hf a (by simp)
+    subst this
+    simpa [loadLoop] using ih (fun r hr => hf r (by simp [hr]))
+
 end GoZero.C13
